@@ -513,6 +513,14 @@ def select(fams, prop, tier, only_group=None, only_family=None):
         if only_family and f.name != only_family:
             continue
         gs = [g for g in f.groups if (prop == "all" or prop in g.props) and (tier == "thorough" or g.tier != "thorough") and (not only_group or re.search(only_group, g.name))]
+        if tier == "quick" and not only_group and prop in ("C02", "C05"):
+            # C02 (safety) and C05 (handler-silent) ride on nearly every group: the quick tier runs a stated subset per family
+            # (family.json "quick_filter": {"C02": regex, "C05": regex}; C05 default: the violation harnesses), thorough runs all
+            flt = f.cfg.get("quick_filter", {}).get(prop)
+            if flt is None and prop == "C05" and any(g.name.startswith("viol") for g in gs):
+                flt = r"^viol"
+            if flt is not None:
+                gs = [g for g in gs if re.search(flt, g.name)]
         if gs:
             sel.append((f, gs))
     return sel
@@ -548,7 +556,9 @@ def obligations_for(res, prop):
         m = re.match(r"^(C\d\d):", o["desc"])
         # an assertion tagged "Cxx:" counts for that property only — provided the group is registered for Cxx at all;
         # otherwise (e.g. the handler-silent obligation in a group that does not list C05) it counts for the group's properties
-        if m and m.group(1) != prop and prop != "all" and m.group(1) in res.get("props", []):
+        # exception: the handler-silent obligation ("C05: assert_handler fired although ...") also counts for the group's other
+        # properties — a valid call that ends in the handler did not deliver the specified result either
+        if m and m.group(1) != prop and prop != "all" and m.group(1) in res.get("props", []) and not o["desc"].startswith("C05: assert_handler fired"):
             continue
         out.append(o)
     return out
@@ -591,7 +601,8 @@ def check_property(prop, tier, seed, keep=False, only_group=None, only_family=No
             probe_lows = {}
             for low, g, _, cell in list(jobs):
                 for fid in g.knowns:
-                    if fid in known:
+                    # a probe only informs the property the finding is recorded for
+                    if fid in known and (prop == "all" or known[fid]["property"] == prop or prop in known[fid]["also"]):
                         key = (low.tag, fid)
                         if key not in probe_lows:
                             try:
@@ -714,9 +725,13 @@ def write_evidence(prop, tier, seed, results, lowered, undecided, violations, kn
         groups.append({"group": "%s.%s" % (r["family"], r["group"]), "kind": r["kind"], "mode": r["mode"], "status": r["status"], "obligations": len(obs), "discharged": ok,
                        "solver_s": r.get("solver_s", 0), "bound": g.attrs.get("bound", "unwind=" + g.attrs.get("unwind", "-")) if r["kind"] == "B" else None})
         if r["mode"] == "contract":
+            low_ = r["_low"]
+            byalias = {a: m for a, m in low_.winfo.get("aliases", {}).items()}
+            bymangled = {c["mangled"]: c for c in low_.winfo.get("contracts", [])}
             for f in g.attrs.get("enforce", "").split(","):
                 if f:
-                    enforced.append("%s (%s)" % (f, r["family"]))
+                    c = bymangled.get(byalias.get(f, f))
+                    enforced.append("%s @ %s [%s]" % (c["function"], c["loc"].replace(REPO + "/", ""), r["family"]) if c else "%s (%s)" % (f, r["family"]))
         if len(samples) < 6 and obs:
             funcs = [o for o in obs if "assertion" in o["id"] or "postcondition" in o["id"]] or obs
             o = funcs[0]
